@@ -136,6 +136,35 @@ CLAIMED["C13"] = dict(
     technique="Lean 4 induction over the merge loop + regenerated option table + differential correspondence incl. object identity",
     design="7 C13")
 
+CLAIMED["C14"] = dict(
+    text="Model of array.py (constructor, _unpack_dim, setters, stacks) with the arithmetic as a PARAMETER, so the theorems hold for "
+         "IEEE doubles, int64 and exact numbers alike. Kernel-checked: C14_unpack_length — every accepted dim argument (None, "
+         "number, pair, full vector) yields exactly as many entries as the axis (the repaired np.arange defect is structurally "
+         "impossible); C14_lengths — after construction exactly one dim vector / unit / name per (non-label) axis, each vector of the "
+         "axis length, with units and names exactly those computed from the caller's arguments (C14_pad_kept, C14_units_kept, "
+         "C14_names_kept, C14_omitted_pixels); C14_setters — every later set_dim / set_dim_units / set_dim_name keeps this; "
+         "C14_ramp_entry / C14_ramp_int / C14_none_int — entry i of an expanded pair is a+(b-a)*i (exactly the arithmetic ramp for "
+         "Python ints; 0..N-1 for an omitted entry); C14_stack — depth / rank / shape of stacks.",
+    note="Not modelled: how far an IEEE ramp is from the rational ramp (the property's 'arithmetic ramp' is checked with a "
+         "4e-16 relative tolerance by the oracle); dims given as float32/float16 arrays at bit level. The correspondence compares "
+         "dim values BIT-EXACTLY between numpy and the Lean Float driver after construction and after every setter. Slice-by-label "
+         "(ar[label] is slice i with the same calibrations) is checked by the oracle on the real objects.",
+    technique="Lean 4 proofs parametric in the arithmetic + bit-exact differential correspondence (Lean Float vs numpy)",
+    design="7 C14")
+CLAIMED["C02"] = dict(
+    text="Kernel-checked, for EVERY arithmetic: C02_axis_compressed — the writer compresses a dim vector exactly when the READER'S "
+         "own expansion of its first two entries reproduces it, so a compressed axis reads back elementwise equal whatever the "
+         "rounding (nearly-linear vectors are simply stored whole); C02_axis_full — an uncompressed axis comes back verbatim; "
+         "C02_stored_length — stored calibration datasets have length 2 or the extent; C02_data_units, C02_labels, C02_body_length — "
+         "data token + units, labels in order under '_labels_', exactly one dataset per axis; C02_readback_calibrated — every Array "
+         "read from a file satisfies C14.",
+    note="PARTIAL: the composition of the per-axis theorems through the dim<n> dataset lookups of _get_constructor_args is not "
+         "proved (it is compared bit-exactly by the correspondence at file level and after read-back, for every dtype / layout / "
+         "dims form). dtype, shape and element bytes of `data` are h5py's contract (H2), sampled by the data token on every case. "
+         "Excluded: a non-stack Array whose last dim name is '_labels_' (known finding, C15).",
+    technique="Lean 4 proofs parametric in the arithmetic + bit-exact differential correspondence at file and read-back level",
+    design="7 C02")
+
 NOT_YET = {}
 
 def main():
